@@ -198,6 +198,17 @@ def h_dft(ctx, cfg):
       ctx.prove(ctx.eq(dc[0], mean), "normalised-DC-bin-is-the-block-mean")
     two = dft(list(h), [w, w], normalize=False)
     ctx.prove(len(two) == 2 and bool(ctx.eq(two[1], X[0])), "bins-in-the-order-of-the-frequencies")
+    if n and cfg.get("complex", True):
+      # complex samples and a frequency list holding w and -w: each bin is still the defining sum of ITS frequency
+      blk = [SymComplex(0 * x, x) if ctx.mode == "sym" else 1j * x for x in h]           # j*h
+      zc = zi.conjugate() if ctx.mode != "sym" else SymComplex(zi.re, -zi.im)             # e^{+jw} = e^{-j(-w)}
+      pair = dft(list(blk), [w, -w], normalize=False)
+      sum_w, sum_mw = 0, 0
+      for k in range(n):
+        sum_w = sum_w + blk[k] * zi ** k
+        sum_mw = sum_mw + blk[k] * zc ** k
+      ctx.prove(len(pair) == 2 and bool(ctx.eq(pair[0], sum_w)), "dft-is-the-defining-sum", "complex block, bin w")
+      ctx.prove(len(pair) == 2 and bool(ctx.eq(pair[1], sum_mw)), "dft-is-the-defining-sum", "complex block, bin -w listed after w")
 
 
 def h_exponential(ctx, cfg):
